@@ -40,7 +40,43 @@ def seed_images(ctx, n):
         p = os.path.join(d, fn)
         if os.path.exists(p):
             out.append((open(p, 'rb').read(), None))
+    # compiler-made files with REAL hash tables, dynamic tables, notes and version sections (the generated descriptions
+    # carry such sections with arbitrary bodies only): both byte orders and classes; described from the file itself so
+    # that the directed faults can aim at their records
+    for fn in SHIPPED_SEEDS[:ctx.budget(6, len(SHIPPED_SEEDS))]:
+        p = os.path.join(d, fn)
+        if os.path.exists(p):
+            data = open(p, 'rb').read()
+            out.append((data, describe_file(data)))
     return out
+
+
+SHIPPED_SEEDS = ['dwarf_lineprog_data16.elf', 'aarch64_be_gnu_hash.so.elf', 'exe_solaris32_cc.sparc.elf', 'lib_versioned64.so.1.elf',
+                 'simple_mipsel.elf', 'unicode_symbols.elf', 'exe_solaris64_cc.sparc.elf', 'lib_with_two_dynstr_sections.so.1.elf',
+                 'exe_solaris32_cc.elf', 'lib_relro.so.elf']
+
+
+def describe_file(data):
+    """the subset of a C01 description that `record_spans` / `amplify` use, read off a well-formed file with the library"""
+    from elftools.elf.elffile import ELFFile
+    try:
+        f = ELFFile(io.BytesIO(data))
+        hdr = f.header
+        TAB = ('SHT_HASH', 'SHT_GNU_HASH', 'SHT_DYNAMIC', 'SHT_NOTE', 'SHT_SYMTAB', 'SHT_DYNSYM', 'SHT_GNU_verdef', 'SHT_GNU_verneed',
+               'SHT_GNU_versym', 'SHT_REL', 'SHT_RELA')
+        NUM = {'SHT_HASH': 5, 'SHT_GNU_HASH': 0x6ffffff6}
+        secs = []
+        for i in range(f.num_sections()):
+            h = f._get_section_header(i)
+            t = h['sh_type']
+            body = ''
+            if t in TAB and h['sh_offset'] + h['sh_size'] <= len(data):
+                body = data[h['sh_offset']:h['sh_offset'] + h['sh_size']].hex()
+            secs.append({'hdr': {'r': [['sh_type', NUM.get(t, t)], ['sh_offset', h['sh_offset']], ['sh_size', h['sh_size']]]}, 'body': body})
+        return {'cls': f.elfclass, 'le': f.little_endian, 'shoff': hdr['e_shoff'], 'shentsize': hdr['e_shentsize'],
+                'phoff': hdr['e_phoff'], 'phentsize': hdr['e_phentsize'], 'sections': secs, 'segments': [None] * f.num_segments()}
+    except Exception:       # noqa: BLE001
+        return None
 
 
 def record_spans(data, a):
@@ -116,7 +152,33 @@ def amplify(rng, data, a):
         if off + n <= len(m):
             m[off:off + n] = (v & ((1 << (8 * n)) - 1)).to_bytes(n, le)
     shoff = a['shoff']
-    target = rng.choice(['ph', 'ph', 'sh', 'str', 'nobits', 'size'])
+    target = rng.choice(['ph', 'ph', 'sh', 'str', 'nobits', 'size', 'hash', 'hash'])
+    if target == 'hash':
+        # a word of a hash section (bucket, chain, nbuckets, symoffset, bloom size) blown up: the symbol-count walks
+        # must stop at the end of the file whatever the table claims (a stored seeded change — an unterminated GNU
+        # chain walk — depended on a random byte fault landing in the right word)
+        hs = []
+        for s_ in a['sections']:
+            h = dict(s_['hdr']['r'])
+            if h.get('sh_type') in ('SHT_HASH', 'SHT_GNU_HASH', 5, 0x6ffffff6) and s_.get('body'):
+                hs.append((h['sh_offset'], len(s_['body']) // 2))
+        if not hs:
+            target = 'sh'
+        else:
+            off, ln = rng.choice(hs)
+            nwords = max(1, ln // 4)
+            for _ in range(rng.choice([1, 1, 2])):
+                wpos = off + 4 * rng.randrange(nwords)
+                kind = rng.choice(['msb', 'all', 'half', 'zero'])
+                if kind == 'msb':
+                    put(wpos + (3 if a['le'] else 0), 1, 0xff)
+                elif kind == 'all':
+                    put(wpos, 4, 0xffffffff)
+                elif kind == 'half':
+                    put(wpos, 4, 0x7ffffffe)
+                else:
+                    put(wpos, 4, 0)
+            return bytes(m)
     if target in ('nobits', 'size') and a['sections']:
         # a section (the name table half of the time) claims a huge size, as SHT_NOBITS or under its own type:
         # nothing the battery enumerates may allocate or loop according to that claim
